@@ -39,16 +39,17 @@ vars == <<c, done>>
 \* abstract alphabet
 A(k, role, vc, level, where, mode) == [k |-> k, role |-> role, vc |-> vc, level |-> level, where |-> where, mode |-> mode]
 
+\* reference classes exist for offset and index fields only (FaultModel!ClassApplies)
 AbsSingles ==
-       {A("Overwrite", r, v, l, "", "") : r \in Roles, v \in ValueClasses, l \in Levels}
+       {x \in {A("Overwrite", r, v, l, "", "") : r \in Roles, v \in ValueClasses, l \in Levels} : ClassApplies(x.vc, x.role)}
   \cup {A("Truncate", r, "", l, w, "") : r \in Roles, l \in Levels, w \in TruncWhere}
   \cup {A("RemoveTable", "", "", "dir", "", "")}
   \cup {A("ShrinkLength", "length", "", "dir", "", m) : m \in ShrinkModes}
   \cup {A("SwapTables", "offset", "", "dir", "", "")}
 
-ReducedVC == {"zero", "max", "hi80", "inc", "filelen"}
+ReducedVC == {"zero", "max", "hi80", "inc", "filelen", "self"}
 AbsDirReduced ==
-       {A("Overwrite", r, v, "dir", "", "") : r \in Roles, v \in ReducedVC}
+       {x \in {A("Overwrite", r, v, "dir", "", "") : r \in Roles, v \in ReducedVC} : ClassApplies(x.vc, x.role)}
   \cup {A("Truncate", r, "", "dir", w, "") : r \in Roles, w \in TruncWhere}
   \cup {A("RemoveTable", "", "", "dir", "", "")}
   \cup {A("ShrinkLength", "length", "", "dir", "", m) : m \in ShrinkModes}
@@ -69,29 +70,34 @@ BaseFile(kind) ==
     [] kind = "woff" -> S!WriteWoff(Tables, [flavor |-> S!MagicOTTO, dir |-> Dir2], <<1, 2>>, Gaps, {2})
 Kinds == {"sfnt", "ttc", "woff"}
 
-\* fields of the model files: [off, w, role, level, rec, tlen]
-Fd(off, w, role, level, rec, tlen) == [off |-> off, w |-> w, role |-> role, level |-> level, rec |-> rec, tlen |-> tlen]
+\* fields of the model files: [off, w, role, level, rec, tlen, sv, pv]
+\*   sv / pv (offset fields): offset of the structure that contains the field / of that structure's
+\*   parent, -1 = none.  A directory record sits in its directory (sv = where the directory starts:
+\*   the table would be the directory itself), the directory of a collection member or of a WOFF file
+\*   hangs off the file header (pv = 0); a member offset of the collection header sits in that header.
+FdR(off, w, role, level, rec, tlen, sv, pv) == [off |-> off, w |-> w, role |-> role, level |-> level, rec |-> rec, tlen |-> tlen, sv |-> sv, pv |-> pv]
+Fd(off, w, role, level, rec, tlen) == FdR(off, w, role, level, rec, tlen, -1, -1)
 
-SfntDirFields(at, n, flen, r0) ==
+SfntDirFields(at, n, flen, r0, par) ==
        {Fd(at, 4, "version", "dir", 0, flen), Fd(at + 4, 2, "count", "dir", 0, flen), Fd(at + 6, 2, "value", "dir", 0, flen)}
   \cup UNION {{Fd(at + 12 + 16 * k, 4, "index", "dir", r0 + k + 1, flen), Fd(at + 12 + 16 * k + 4, 4, "value", "dir", r0 + k + 1, flen),
-               Fd(at + 12 + 16 * k + 8, 4, "offset", "dir", r0 + k + 1, flen), Fd(at + 12 + 16 * k + 12, 4, "length", "dir", r0 + k + 1, flen)} :
+               FdR(at + 12 + 16 * k + 8, 4, "offset", "dir", r0 + k + 1, flen, at, par), Fd(at + 12 + 16 * k + 12, 4, "length", "dir", r0 + k + 1, flen)} :
               k \in 0 .. (n - 1)}
 
 FieldsOf(kind) ==
   LET bs == BaseFile(kind)  flen == Len(bs) IN
   CASE kind = "sfnt" ->
-         SfntDirFields(0, 2, flen, 0)
+         SfntDirFields(0, 2, flen, 0, -1)
          \cup {Fd(S!Rd32(bs, 12 + 8), 2, "value", "table", 0, 3), Fd(S!Rd32(bs, 28 + 8) + 1, 1, "count", "table", 0, 5)}
     [] kind = "ttc" ->
          {Fd(0, 4, "version", "dir", 0, flen), Fd(4, 2, "version", "dir", 0, flen), Fd(8, 4, "count", "dir", 0, flen),
-          Fd(12, 4, "offset", "dir", 0, flen), Fd(16, 4, "offset", "dir", 0, flen)}
-         \cup SfntDirFields(S!Rd32(bs, 12), 2, flen, 0)
+          FdR(12, 4, "offset", "dir", 0, flen, 0, -1), FdR(16, 4, "offset", "dir", 0, flen, 0, -1)}
+         \cup SfntDirFields(S!Rd32(bs, 12), 2, flen, 0, 0)
          \cup {Fd(S!Rd32(bs, 16) + 4, 2, "count", "dir", 0, flen)}
     [] kind = "woff" ->
          {Fd(0, 4, "version", "dir", 0, flen), Fd(4, 4, "version", "dir", 0, flen), Fd(8, 4, "length", "dir", 0, flen),
           Fd(12, 2, "count", "dir", 0, flen), Fd(14, 2, "value", "dir", 0, flen), Fd(16, 4, "length", "dir", 0, flen)}
-         \cup UNION {{Fd(44 + 20 * k, 4, "index", "dir", k + 1, flen), Fd(44 + 20 * k + 4, 4, "offset", "dir", k + 1, flen),
+         \cup UNION {{Fd(44 + 20 * k, 4, "index", "dir", k + 1, flen), FdR(44 + 20 * k + 4, 4, "offset", "dir", k + 1, flen, 44, 0),
                       Fd(44 + 20 * k + 8, 4, "length", "dir", k + 1, flen), Fd(44 + 20 * k + 12, 4, "length", "dir", k + 1, flen)} :
                      k \in 0 .. 1}
          \cup {Fd(S!Rd32(bs, 64 + 4), 1, "version", "table", 0, 16), Fd(S!Rd32(bs, 64 + 4) + 3, 2, "length", "table", 0, 16)}
@@ -105,10 +111,10 @@ RecsOf(kind) ==
     [] kind = "woff" -> {[rec |-> 44 + 20 * k, size |-> 20, cnt |-> 12, idx |-> k, n |-> 2, offField |-> 44 + 20 * k + 4, lenField |-> 44 + 20 * k + 8] : k \in 0 .. 1}
 
 \* concrete faults; `rec` and `role` are kept for the non-interference lemma
-Ov(f, vc)  == [k |-> "Overwrite", off |-> f.off, w |-> f.w, vc |-> vc, tlen |-> f.tlen, rec |-> f.rec, role |-> f.role]
+Ov(f, vc)  == [k |-> "Overwrite", off |-> f.off, w |-> f.w, vc |-> vc, tlen |-> f.tlen, rec |-> f.rec, role |-> f.role, sv |-> f.sv, pv |-> f.pv]
 FaultsOf(kind) ==
   LET fs == FieldsOf(kind)  rs == RecsOf(kind) IN
-       {Ov(f, vc) : f \in fs, vc \in ValueClasses}
+       {x \in {Ov(f, vc) : f \in fs, vc \in ValueClasses} : ClassApplies(x.vc, x.role) /\ HasRef(x.vc, x.sv, x.pv)}
   \cup {[k |-> "Truncate", at |-> f.off] : f \in fs} \cup {[k |-> "Truncate", at |-> f.off + 1] : f \in fs}
   \cup {[k |-> "RemoveTable", rec |-> r.rec, size |-> r.size, cnt |-> r.cnt, idx |-> r.idx, n |-> r.n] : r \in rs}
   \cup {[k |-> "ShrinkLength", off |-> r.lenField, mode |-> m] : r \in rs, m \in ShrinkModes}
@@ -121,13 +127,15 @@ ReducedFaultsOf(kind) ==
                           \/ (f.k = "Overwrite" /\ f.vc \in ReducedPairVC /\ (f.rec > 0 \/ f.role = "count" \/ f.role = "offset"))
                           \/ (f.k = "Truncate" /\ f.at % 8 = 0)}
 
-ValCases ==
-  {[t |-> "val", vc |-> vc, old |-> old, flen |-> fl, tlen |-> tl] :
-     vc \in ValueClasses, old \in {<<0>>, <<255>>, <<127>>, <<128>>, <<0, 0>>, <<255, 255>>, <<127, 255>>, <<0, 255>>, <<128, 0>>,
+Olds ==  {<<0>>, <<255>>, <<127>>, <<128>>, <<0, 0>>, <<255, 255>>, <<127, 255>>, <<0, 255>>, <<128, 0>>,
                                    <<1, 2, 3>>, <<255, 255, 255>>, <<0, 0, 0, 0>>, <<255, 255, 255, 255>>, <<127, 255, 255, 255>>,
                                    <<128, 0, 0, 0>>, <<0, 1, 255, 255>>, <<0, 0, 0, 0, 0, 0, 0, 0>>, <<0, 0, 0, 0, 255, 255, 255, 255>>,
-                                   <<255, 255, 255, 255, 255, 255, 255, 255>>},
-     fl \in {0, 53, 65536, 16909060}, tl \in {0, 255, 70000}}
+                                   <<255, 255, 255, 255, 255, 255, 255, 255>>}
+ValCases ==
+       {[t |-> "val", vc |-> vc, old |-> old, flen |-> fl, tlen |-> tl, sv |-> 0, pv |-> 0] :
+          vc \in ByteClasses, old \in Olds, fl \in {0, 53, 65536, 16909060}, tl \in {0, 255, 70000}}
+  \cup {[t |-> "val", vc |-> vc, old |-> old, flen |-> 53, tlen |-> 255, sv |-> sv, pv |-> pv] :
+          vc \in RefClasses, old \in Olds, sv \in {0, 5, 300, 70000, 16909060}, pv \in {0, 44, 65535, 65536}}
 
 \* Cases are reached in two steps so that TLC's workers share the work: Init picks a root (the first
 \* fault of a sequence, or a value class), Next completes it.
@@ -165,8 +173,8 @@ Spec == Init /\ [][Next]_vars
 LemmasAndEmit ==
   done =>
     CASE c.t = "gen"  -> PrintT(<<"CASE", ToJson(c)>>)
-      [] c.t = "val"  -> PrintT(<<"VAL", ToJson([vc |-> c.vc, old |-> c.old, flen |-> c.flen, tlen |-> c.tlen,
-                                                  new |-> NewValue(c.vc, c.old, c.flen, c.tlen)])>>)
+      [] c.t = "val"  -> PrintT(<<"VAL", ToJson([vc |-> c.vc, old |-> c.old, flen |-> c.flen, tlen |-> c.tlen, sv |-> c.sv, pv |-> c.pv,
+                                                  new |-> NewValue(c.vc, c.old, c.flen, c.tlen, c.sv, c.pv)])>>)
       [] c.t = "file" ->
            LET base == BaseFile(c.kind)
                bs   == ApplySeq(base, c.seq)
@@ -189,12 +197,23 @@ LemmasAndEmit ==
                            /\ e.read = "Ok" /\ Len(e.font.tabs) = Len(e0.font.tabs)
                            /\ \A k \in 1 .. Len(e0.font.tabs) : k # c.seq[1].rec => e.font.tabs[k] = e0.font.tabs[k],
                         "LemmaNonInterference")
+              \* a single reference-class overwrite makes the field read as the reference (the bytes of sv / pv), and a
+              \* directory record whose offset is its own directory names the bytes of that directory
+              /\ Assert((Len(c.seq) = 1 /\ c.seq[1].k = "Overwrite" /\ c.seq[1].vc \in RefClasses) =>
+                           LET f == c.seq[1]  n == IF f.vc = "self" THEN f.sv ELSE f.pv IN
+                           /\ n >= 0 /\ Window(bs, f.off, f.w) = BytesOf(n, f.w)
+                           /\ (f.rec > 0 /\ e.read = "Ok" /\ f.rec <= Len(e.font.tabs)) => e.font.tabs[f.rec].off = n,
+                        "LemmaRef")
               /\ PrintT(<<"FILE", ToJson([kind |-> c.kind, base |-> base, seq |-> c.seq, bytes |-> bs, view |-> v])>>)
 
 Sanity ==
-  /\ NewValue("dec", <<0, 0>>, 0, 0) = <<255, 255>>
-  /\ NewValue("dbl", <<128, 1>>, 0, 0) = <<0, 2>>
-  /\ NewValue("filelen", <<9, 9>>, 65537, 0) = <<0, 1>>
+  /\ NewValue("dec", <<0, 0>>, 0, 0, -1, -1) = <<255, 255>>
+  /\ NewValue("dbl", <<128, 1>>, 0, 0, -1, -1) = <<0, 2>>
+  /\ NewValue("filelen", <<9, 9>>, 65537, 0, -1, -1) = <<0, 1>>
+  /\ NewValue("self", <<9, 9>>, 0, 0, 258, -1) = <<1, 2>>
+  /\ NewValue("parent", <<9>>, 0, 0, 7, 300) = <<44>>
+  /\ ClassApplies("self", "offset") /\ ~ClassApplies("parent", "count") /\ ClassApplies("max", "count")
+  /\ ~HasRef("self", -1, 3) /\ HasRef("zero", -1, -1)
   /\ Half(<<1, 0, 0, 1>>) = <<0, 128, 0, 0>>
   /\ ~Safe("Panic") /\ ~Safe("Timeout") /\ Safe("Err")
 =============================================================================
